@@ -407,7 +407,16 @@ func judgeSend(o *outcome, w *wcfg, st *state, q *request, tx *reftx.Tx) {
 		case m.role == "change":
 			o.v("change/"+how, "the change output (inputs - payments - fee to the designated change address) is "+how, det)
 		case m.role == "msg":
-			o.v("msg-output/"+how, "the OP_RETURN output carrying the -msg text is "+how, det)
+			lb := "len<=75"
+			switch n := len(q.Msg); {
+			case n == 76:
+				lb = "len76"
+			case n > 255:
+				lb = "len>=256"
+			case n > 76:
+				lb = "len77-255"
+			}
+			o.v("msg-output/"+how+"/"+lb, "the OP_RETURN output carrying the -msg text is "+how, det)
 		default:
 			o.v(m.role+"/"+how, "a requested destination does not receive exactly the requested amount at the script of its address: "+how, det)
 		}
@@ -650,7 +659,7 @@ func judgeRaw(o *outcome, w *wcfg, st *state, q *request, tx *reftx.Tx) {
 			if len(tx.In[i].ScriptSig) == 0 && len(tx.In[i].Witness) == 0 {
 				o.inc("raw_foreign_input_left_unsigned")
 			} else {
-				o.inc("raw_foreign_input_touched")
+				o.inc("raw_foreign_input_touched/" + scriptKind(spent[i].PkScript) + "/atype-" + w.AType)
 			}
 			continue
 		}
